@@ -161,7 +161,7 @@ Lemma parse_basic_S n ts : parse_basic (S n) ts =
       | None => Err
       end
     | _ =>
-      match tok_text t with
+      match ident_text t with
       | Some s => Ok (AVar s) r
       | None => Err
       end
@@ -177,13 +177,8 @@ Inductive Vars : list tok -> list string -> Prop :=
 | V1 t s : ident_text t = Some s -> Vars [t; TRb] [s]
 | VS t s p l : ident_text t = Some s -> Vars p l -> Vars (t :: TComma :: p) (s :: l).
 
-(* the tokens parseBasic turns into a variable *)
-Definition var_tok (t : tok) : option string :=
-  match t with
-  | TId s => Some s
-  | TRb => Some "}" | TComma => Some "," | TMinus => Some "-" | TGt => Some ">"
-  | _ => None
-  end.
+(* the tokens parseBasic turns into a variable: the name-like ones *)
+Definition var_tok (t : tok) : option string := ident_text t.
 
 Inductive Der : nat -> list tok -> ast -> Prop :=
 | DVar t s : var_tok t = Some s -> Der 0 [t] (AVar s)
@@ -297,7 +292,6 @@ Proof.
     destruct (parse_vars r) as [[l r']|] eqn:E; [|discriminate].
     inversion H; subst. apply parse_vars_sound in E. destruct E as [p [-> V]].
     exists (TLb :: p). split; [reflexivity|]. apply DUniq. exact V.
-  - congruence.
 Qed.
 
 Lemma snd_not_step n : snd_basic n -> snd_lvl parse_not 1 n -> snd_lvl parse_not 1 (S n).
@@ -472,10 +466,6 @@ Lemma stop_mono : forall L L' rest, stop L' rest -> L <= L' -> stop L rest.
 Proof.
   intros L L' [|t r] H HL; simpl in *; [exact I|]. destruct (oplvl t); [lia|exact I].
 Qed.
-
-Lemma var_tok_text : forall t s, var_tok t = Some s ->
-  tok_text t = Some s /\ is_operator t = false.
-Proof. intros t s H. destruct t; simpl in *; try discriminate; auto. Qed.
 
 Ltac stop_ret Hs :=
   match goal with
@@ -760,18 +750,13 @@ Proof.
   - apply (Der_up 0); [apply wrap_Der; exact D6|lia|exact Hc].
 Qed.
 
-Lemma commas_Vars : forall l, l <> [] ->
-  forallb (fun s => valid_ident s && negb (go_keyword s)) l = true ->
-  Vars (commas l ++ [TRb]) l.
+Lemma commas_Vars : forall l, l <> [] -> Vars (commas l ++ [TRb]) l.
 Proof.
-  induction l as [|s l IH]; intros Hne H; [congruence|].
-  simpl in H. apply andb_prop in H. destruct H as [Hs Hl].
-  apply andb_prop in Hs. destruct Hs as [_ Hk]. apply negb_true_iff in Hk.
-  assert (Hi : ident_text (TId s) = Some s) by (unfold ident_text; simpl; rewrite Hk; reflexivity).
+  induction l as [|s l IH]; intros Hne; [congruence|].
   destruct l as [|s2 l2].
-  - simpl. apply V1. exact Hi.
+  - simpl. apply V1. reflexivity.
   - change (commas (s :: s2 :: l2)) with (TId s :: TComma :: commas (s2 :: l2)).
-    simpl app. apply VS; [exact Hi|]. apply IH; [discriminate|exact Hl].
+    simpl app. apply VS; [reflexivity|]. apply IH. discriminate.
 Qed.
 
 Lemma pr_Der : forall a, wf_idents a -> forall ctx lay, ctx <= 6 ->
@@ -792,7 +777,7 @@ Proof.
   - simpl fst. apply (wrap_sel (AUniq l)); [|exact Hc]. simpl.
     apply andb_prop in Hwf. destruct Hwf as [Hne Hl].
     change (TLb :: commas l ++ [TRb]) with (TLb :: (commas l ++ [TRb])).
-    apply DUniq. apply commas_Vars; [|exact Hl]. destruct l; [discriminate|discriminate].
+    apply DUniq. apply commas_Vars. destruct l; [discriminate|discriminate].
 Qed.
 
 (* C17_roundtrip: the parser rebuilds exactly the tree that was printed *)
@@ -844,16 +829,15 @@ Proof. intros t s H E. subst t. discriminate. Qed.
 Lemma Vars_run : forall p l, Vars p l -> forall d, arun MBName d p = Some (MAfter, d).
 Proof.
   intros p l V. induction V as [t s H|t s p l H V IH]; intro d.
-  - destruct t; try reflexivity. discriminate.
-  - change (t :: TComma :: p) with ([t; TComma] ++ p). rewrite arun_app.
-    destruct t; try (simpl; apply IH). discriminate.
+  - destruct t; try discriminate. reflexivity.
+  - destruct t; try discriminate. simpl. apply IH.
 Qed.
 
 Lemma Der_run : forall L p a, Der L p a -> forall d, arun MWant d p = Some (MAfter, d).
 Proof.
   intros L p a D.
   induction D as [t s H|p a D IH|p l V|p a D IH|L p a D IH HL|o p q a b D1 IH1 D2 IH2]; intro d.
-  - destruct t; simpl in *; try discriminate; reflexivity.
+  - destruct t; try discriminate. reflexivity.
   - simpl. rewrite arun_app. rewrite IH. reflexivity.
   - simpl. apply Vars_run with (l := l). exact V.
   - simpl. apply IH.
@@ -885,10 +869,6 @@ Proof.
     destruct p as [|t p]; [discriminate|]. simpl.
     destruct (rev p ++ [t]) eqn:E; [destruct (rev p); discriminate|reflexivity].
 Qed.
-
-(* tokens that cannot follow a complete formula *)
-Definition nocont (t : tok) : bool :=
-  match t with TSemi | TEq | TBar | TAmp | TMinus => false | _ => true end.
 
 Theorem trailing : forall toks a t rest,
   parse toks = Some a -> (forall p, toks <> p ++ [TSemi]) -> nocont t = true ->
@@ -968,74 +948,145 @@ Qed.
 Theorem parse_nil : parse [] = None.
 Proof. reflexivity. Qed.
 
+(* after an operator comes an operand: a name ( { ^ ; anything else (stray
+   punctuation, another operator) is an error *)
+Lemma op_run_want : forall o m d m' d',
+  arun m d (op_toks o) = Some (m', d') -> m' = MWant.
+Proof.
+  intros o m d m' d' H. destruct o, m; simpl in H; try discriminate;
+    inversion H; subst; reflexivity.
+Qed.
+
+Theorem operator_then_stray : forall pre o t rest,
+  operand_start t = false -> parse (pre ++ op_toks o ++ t :: rest) = None.
+Proof.
+  intros pre o t rest Ht.
+  destruct (parse (pre ++ op_toks o ++ t :: rest)) as [b|] eqn:E; [|reflexivity].
+  exfalso. apply parse_run_weak in E. rewrite arun_app in E.
+  destruct (arun MWant 0 pre) as [[m d]|]; [|destruct E; discriminate].
+  rewrite arun_app in E.
+  destruct (arun m d (op_toks o)) as [[m' d']|] eqn:R; [|destruct E; discriminate].
+  apply op_run_want in R. subst m'.
+  destruct t; simpl in Ht; try discriminate; simpl in E; destruct E; discriminate.
+Qed.
+
+(* the same at the beginning of the text, after "(" and after "^" *)
+Theorem stray_first : forall t rest,
+  operand_start t = false -> parse (t :: rest) = None.
+Proof.
+  intros t rest Ht. destruct (parse (t :: rest)) as [b|] eqn:E; [|reflexivity].
+  exfalso. apply parse_run_weak in E.
+  destruct t; simpl in Ht; try discriminate; simpl in E; destruct E; discriminate.
+Qed.
+
+Theorem open_then_stray : forall pre t0 t rest,
+  t0 = TLp \/ t0 = TCaret -> operand_start t = false ->
+  parse (pre ++ t0 :: t :: rest) = None.
+Proof.
+  intros pre t0 t rest H0 Ht.
+  destruct (parse (pre ++ t0 :: t :: rest)) as [b|] eqn:E; [|reflexivity].
+  exfalso. apply parse_run_weak in E. rewrite arun_app in E.
+  destruct (arun MWant 0 pre) as [[m d]|]; [|destruct E; discriminate].
+  destruct H0; subst t0; destruct m; simpl in E; try (destruct E; discriminate);
+    destruct t; simpl in Ht; try discriminate; simpl in E; destruct E; discriminate.
+Qed.
+
 (* ---------------------------------------------------------------- *)
 (* Balance                                                           *)
 
-Lemma neutral_name : forall t s, ident_text t = Some s -> valid_ident s = true ->
-  forall st r, bal st (t :: r) = bal st r.
-Proof.
-  intros t s H Hv st r. destruct t; try reflexivity;
-    unfold ident_text in H; simpl in H; inversion H; subst; discriminate.
-Qed.
-
 Lemma Vars_bal : forall p l, Vars p l ->
-  forallb (fun s => valid_ident s && negb (go_keyword s)) l = true ->
   forall st more, bal (true :: st) (p ++ more) = bal st more.
 Proof.
-  intros p l V. induction V as [t s H|t s p l H V IH]; intros Hl st more;
-    simpl in Hl; apply andb_prop in Hl; destruct Hl as [Hs Hl];
-    apply andb_prop in Hs; destruct Hs as [Hv _].
-  - simpl app. rewrite (neutral_name t s H Hv). reflexivity.
-  - simpl app. rewrite (neutral_name t s H Hv). simpl. apply IH. exact Hl.
+  intros p l V. induction V as [t s H|t s p l H V IH]; intros st more;
+    destruct t; try discriminate.
+  - reflexivity.
+  - simpl. apply IH.
 Qed.
 
 Lemma op_bal : forall o st r, bal st (op_toks o ++ r) = bal st r.
 Proof. intros o st r. destruct o; reflexivity. Qed.
 
-Lemma Der_bal : forall L p a, Der L p a -> wf_idents a ->
+Lemma Der_bal : forall L p a, Der L p a ->
   forall st more, bal st (p ++ more) = bal st more.
 Proof.
-  unfold wf_idents. intros L p a D.
+  intros L p a D.
   induction D as [t s H|p a D IH|p l V|p a D IH|L p a D IH HL|o p q a b D1 IH1 D2 IH2];
-    intros Hwf st more; simpl in Hwf.
-  - destruct t; simpl in H; try discriminate; try reflexivity.
-    inversion H; subst. discriminate.
-  - simpl. rewrite <- app_assoc. rewrite IH by exact Hwf. reflexivity.
-  - apply andb_prop in Hwf. destruct Hwf as [_ Hl]. simpl.
-    apply (Vars_bal p l V Hl).
-  - simpl. apply IH. exact Hwf.
-  - apply IH. exact Hwf.
-  - apply andb_prop in Hwf. destruct Hwf as [Hx Hy].
-    rewrite <- !app_assoc. rewrite IH1 by exact Hx. rewrite op_bal. apply IH2. exact Hy.
+    intros st more.
+  - destruct t; try discriminate. reflexivity.
+  - simpl. rewrite <- app_assoc. rewrite IH. reflexivity.
+  - simpl. apply (Vars_bal p l V).
+  - simpl. apply IH.
+  - apply IH.
+  - rewrite <- !app_assoc. rewrite IH1. rewrite op_bal. apply IH2.
 Qed.
 
-Theorem unbalanced_partial : forall toks a,
-  parse toks = Some a -> wf_idents a -> balanced toks.
+(* C17_unbalanced *)
+Theorem parse_balanced : forall toks a, parse toks = Some a -> balanced toks.
 Proof.
-  intros toks a H Hwf. unfold balanced. apply parse_sound in H.
+  intros toks a H. unfold balanced. apply parse_sound in H.
   destruct H as [D|[p [-> D]]].
-  - rewrite <- (app_nil_r toks). rewrite (Der_bal _ _ _ D Hwf). reflexivity.
-  - rewrite (Der_bal _ _ _ D Hwf). reflexivity.
+  - rewrite <- (app_nil_r toks). rewrite (Der_bal _ _ _ D). reflexivity.
+  - rewrite (Der_bal _ _ _ D). reflexivity.
 Qed.
 
-Theorem unbalanced_refuted :
-  exists toks a, parse toks = Some a /\ ~ balanced toks.
+(* what the parser builds: non-empty brace groups, the names are those of the
+   name-like tokens *)
+Fixpoint names_from (a : ast) : list string :=
+  match a with
+  | AVar s => [s]
+  | ANot x => names_from x
+  | ABin _ x y => names_from x ++ names_from y
+  | AUniq l => l
+  end.
+
+Fixpoint tok_names (ts : list tok) : list string :=
+  match ts with
+  | [] => []
+  | TId s :: r => s :: tok_names r
+  | _ :: r => tok_names r
+  end.
+
+Lemma tok_names_app : forall p q, tok_names (p ++ q) = tok_names p ++ tok_names q.
 Proof.
-  exists [TId "a"; TBar; TRb], (ABin Or (AVar "a") (AVar "}")).
-  split; [reflexivity|]. unfold balanced. simpl. discriminate.
+  induction p as [|t p IH]; intro q; [reflexivity|].
+  destruct t; simpl; rewrite IH; reflexivity.
 Qed.
 
+Lemma Vars_names : forall p l, Vars p l -> tok_names p = l.
+Proof.
+  intros p l V. induction V as [t s H|t s p l H V IH]; destruct t; try discriminate;
+    injection H as Hs; simpl; rewrite Hs.
+  - reflexivity.
+  - rewrite IH. reflexivity.
+Qed.
+
+Lemma Der_names : forall L p a, Der L p a -> tok_names p = names_from a.
+Proof.
+  intros L p a D.
+  induction D as [t s H|p a D IH|p l V|p a D IH|L p a D IH HL|o p q a b D1 IH1 D2 IH2].
+  - destruct t; try discriminate. inversion H; subst. reflexivity.
+  - simpl. rewrite tok_names_app, IH. simpl. apply app_nil_r.
+  - simpl. apply (Vars_names p l V).
+  - simpl. exact IH.
+  - exact IH.
+  - rewrite !tok_names_app, IH1, IH2. destruct o; reflexivity.
+Qed.
+
+(* the variables of the result are exactly the names of the text, in order *)
+Theorem parse_names : forall toks a, parse toks = Some a -> names_from a = tok_names toks.
+Proof.
+  intros toks a H. apply parse_sound in H. destruct H as [D|[p [-> D]]].
+  - symmetry. apply (Der_names _ _ _ D).
+  - rewrite tok_names_app. simpl. rewrite app_nil_r. symmetry. apply (Der_names _ _ _ D).
+Qed.
 
 (* ---------------------------------------------------------------- *)
 (* The tokenizer undoes the character-level printer                  *)
 
-Definition good_tok (t : tok) : bool :=
-  match t with TId s => valid_ident s | TBad => false | _ => true end.
-
 Definition idchar (c : ascii) : bool := is_letter c || is_digit c.
 Definition sep_char (c : ascii) : bool := is_blank c || (nat_of_ascii c =? 47).
 Definition ends_ok (cs : list ascii) : bool :=
-  match cs with [] => true | c :: _ => negb (idchar c) end.
+  match cs with [] => true | c :: _ => negb (idchar c || (nat_of_ascii c =? 46)) end.
 Definition head_sep (cs : list ascii) : bool :=
   match cs with [] => true | c :: _ => sep_char c end.
 
@@ -1053,13 +1104,30 @@ Proof.
   - apply Nat.eqb_neq. lia.
 Qed.
 
-Lemma sep_not_id : forall c, sep_char c = true -> idchar c = false.
+Lemma sep_not_id : forall c, sep_char c = true ->
+  idchar c || (nat_of_ascii c =? 46) = false.
 Proof.
   intros c H. unfold sep_char, idchar, is_blank, is_letter, is_digit in *.
   remember (nat_of_ascii c) as n eqn:En. clear En.
   rewrite !orb_true_iff, !Nat.eqb_eq in H.
-  rewrite !orb_false_iff, !andb_false_iff, !Nat.leb_gt, Nat.eqb_neq.
+  rewrite !orb_false_iff, !andb_false_iff, !Nat.leb_gt, !Nat.eqb_neq.
   repeat split; lia.
+Qed.
+
+Lemma digit_facts : forall c, is_digit c = true ->
+  is_blank c = false /\ is_letter c = false.
+Proof.
+  intros c H. unfold is_digit, is_letter, is_blank in *.
+  remember (nat_of_ascii c) as n eqn:En. clear En.
+  rewrite !andb_true_iff, !Nat.leb_le in H.
+  rewrite !orb_false_iff, !andb_false_iff, !Nat.leb_gt, !Nat.eqb_neq.
+  repeat split; lia.
+Qed.
+
+Lemma step_normal_digit : forall c, is_digit c = true -> step_normal c = ([], SNum [c]).
+Proof.
+  intros c H. unfold step_normal. destruct (digit_facts c H) as [Hb Hl].
+  rewrite Hb, Hl, H. reflexivity.
 Qed.
 
 Lemma step_normal_letter : forall c, is_letter c = true -> step_normal c = ([], SIdent [c]).
@@ -1080,8 +1148,28 @@ Lemma ident_end : forall acc cs, ends_ok cs = true ->
   scan_from (SIdent acc) cs = TId (string_of_list (rev acc)) :: scan_from SNormal cs.
 Proof.
   intros acc [|c r] H; [reflexivity|].
-  simpl in H. apply negb_true_iff in H. unfold idchar in H.
+  simpl in H. apply negb_true_iff in H. apply orb_false_iff in H. destruct H as [H _].
+  unfold idchar in H.
   rewrite !scan_cons. simpl step. rewrite H. destruct (step_normal c) as [out st']. reflexivity.
+Qed.
+
+Lemma num_run : forall r acc cs, forallb is_digit r = true ->
+  scan_from (SNum acc) (r ++ cs) = scan_from (SNum (rev r ++ acc)) cs.
+Proof.
+  induction r as [|d r IH]; intros acc cs H; [reflexivity|].
+  simpl in H. apply andb_prop in H. destruct H as [Hd Hr].
+  simpl app. rewrite scan_cons. simpl step. rewrite Hd. simpl.
+  rewrite IH by exact Hr. rewrite <- app_assoc. reflexivity.
+Qed.
+
+Lemma num_end : forall acc cs, ends_ok cs = true ->
+  scan_from (SNum acc) cs = TId (string_of_list (rev acc)) :: scan_from SNormal cs.
+Proof.
+  intros acc [|c r] H; [reflexivity|].
+  simpl in H. apply negb_true_iff in H. apply orb_false_iff in H. destruct H as [H Hdot].
+  unfold idchar in H. apply orb_false_iff in H. destruct H as [Hl Hd].
+  rewrite !scan_cons. simpl step. rewrite Hd, Hl, Hdot. simpl.
+  destruct (step_normal c) as [out st']. reflexivity.
 Qed.
 
 Lemma string_list_id : forall s, string_of_list (list_of_string s) = s.
@@ -1099,11 +1187,25 @@ Proof.
   rewrite rev_app_distr, rev_involutive. reflexivity.
 Qed.
 
+Lemma number_scan : forall s cs, valid_number s = true -> ends_ok cs = true ->
+  scan_from SNormal (list_of_string s ++ cs) = TId s :: scan_from SNormal cs.
+Proof.
+  intros s cs Hv He. unfold valid_number in Hv.
+  rewrite <- (string_list_id s) at 2.
+  destruct (list_of_string s) as [|c r]; [discriminate|].
+  apply andb_prop in Hv. destruct Hv as [Hc Hr].
+  simpl app. rewrite scan_cons. simpl step. rewrite (step_normal_digit c Hc). simpl.
+  rewrite num_run by exact Hr. rewrite num_end by exact He.
+  rewrite rev_app_distr, rev_involutive. reflexivity.
+Qed.
+
 Lemma tok_scan : forall t cs, good_tok t = true -> (is_id t = true -> ends_ok cs = true) ->
   scan_from SNormal (tok_chars t ++ cs) = t :: scan_from SNormal cs.
 Proof.
   intros t cs Hg He. destruct t; try reflexivity.
-  apply ident_scan; [exact Hg|apply He; reflexivity].
+  simpl in Hg. unfold valid_name in Hg. apply orb_true_iff in Hg. destruct Hg as [Hg|Hg].
+  - apply ident_scan; [exact Hg|apply He; reflexivity].
+  - apply number_scan; [exact Hg|apply He; reflexivity].
 Qed.
 
 Lemma gap_item_skip : forall k cs,
